@@ -79,14 +79,17 @@ theorem tape_extract_placement_step (extract : Bool) (dir : Str) (s : Tape.RStat
         simp only
         by_cases h47 : (d.name ++ [46] ++ d.ext).contains 47 = true
         · simp only [h47, if_true]; exact Or.inl trivial
-        · by_cases h0 : (d.name ++ [46] ++ d.ext).contains 0 = true
-          · simp only [h47, h0, if_true, if_false, Bool.false_eq_true]; exact Or.inl trivial
-          · by_cases ho : (!Tape.openable (d.name ++ [46] ++ d.ext)) = true
-            · simp only [h47, h0, ho, if_true, if_false, Bool.false_eq_true]; exact Or.inl trivial
-            · simp only [h47, h0, ho, if_false, Bool.false_eq_true]
-              cases Tape.onEndBlock s.l with
-              | error e => exact Or.inr ⟨_, _, rfl, by simpa using h47⟩
-              | ok r => exact Or.inr ⟨_, _, rfl, by simpa using h47⟩
+        · simp only [h47, Bool.false_eq_true, if_false]
+          split
+          · exact Or.inl rfl
+          · by_cases h0 : (d.name ++ [46] ++ d.ext).contains 0 = true
+            · simp only [h0, if_true]; exact Or.inl trivial
+            · by_cases ho : (!Tape.openable (d.name ++ [46] ++ d.ext)) = true
+              · simp only [h0, ho, if_true, if_false, Bool.false_eq_true]; exact Or.inl trivial
+              · simp only [h0, ho, if_false, Bool.false_eq_true]
+                cases Tape.onEndBlock s.l with
+                | error e => exact Or.inr ⟨_, _, rfl, by simpa using h47⟩
+                | ok r => exact Or.inr ⟨_, _, rfl, by simpa using h47⟩
 
 theorem tape_extract_placement_loop (dir : Str) (blocks : List Bytes) : ∀ (s : Tape.RState),
     (∀ w ∈ s.writes, ∃ f, w.1 = pathJoin dir f ∧ f.contains 47 = false) →
